@@ -233,6 +233,8 @@ ssize_t __wrap_write(int fd, const void *buf, size_t n) {
   if (W.short_at == idx && W.short_n < n) {
     n = W.short_n;
     W.fault_hit = 1;
+  } else if (W.short_all && W.short_all < n) {
+    n = W.short_all; /* every transfer of this operation is cut to short_all bytes */
   }
   logf_(" %zu", n);
   return done_i(__real_write(fd, buf, n));
@@ -244,6 +246,8 @@ ssize_t __wrap_sendfile64(int out, int in, off_t *off, size_t n) {
   if (W.short_at == idx && W.short_n < n) {
     n = W.short_n;
     W.fault_hit = 1;
+  } else if (W.short_all && W.short_all < n) {
+    n = W.short_all;
   } else if (W.chunk && W.chunk < n) {
     n = W.chunk;
   }
